@@ -373,6 +373,12 @@ pub fn run(tier: Tier) -> i32 {
     rep.absorb(a2);
     rep.absorb(boundary_leg(&g, tier == Tier::Thorough));
     rep.bound("character_class_sweep", tier.pick("every scalar below U+3000 plus every numeric / white-space scalar, 26 contexts", "every Unicode scalar, 26 contexts"));
+    {
+        let mut acc = Acc::new();
+        let n = super::context::parse_context_leg(&mut acc);
+        rep.bound("parse_contexts", format!("{n} call sites (main thread, fresh thread, thread that parsed before, thread-local destructors in three registration orders, a destructor run while unwinding, inside a polled future), one child process each"));
+        rep.absorb(acc);
+    }
     let nb = rep.acc.get("boundary_texts");
     rep.states = n1 + n2 + nb;
     rep.transitions = n1 + n2 + nb;
